@@ -56,6 +56,10 @@ Free ==
           (id \in DOMAIN subs /\ i \in DOMAIN subs[id].items
            /\ (subs[id].items[i].qsize # qs \/ subs[id].items[i].dold # d) /\ ModifyItem(id, i, qs, d))
      /\ UNCHANGED <<nPub, nWrite, nTick, nSub>>
+  \/ /\ "SetMode" \in Acts
+     /\ \E id \in SubIds, i \in ItemIds, m \in {"Disabled", "Sampling", "Reporting"} :
+          (id \in DOMAIN subs /\ i \in DOMAIN subs[id].items /\ subs[id].items[i].mode # m /\ SetMode(id, i, m))
+     /\ UNCHANGED <<nPub, nWrite, nTick, nSub>>
   \/ /\ "DeleteItem" \in Acts /\ \E id \in SubIds, i \in ItemIds : DeleteItem(id, i) /\ UNCHANGED <<nPub, nWrite, nTick, nSub>>
   \/ /\ "Write" \in Acts /\ nWrite < MaxWrites
      /\ \E n \in Nodes, v \in Vals : v # nodeVal[n] /\ Write(n, v)
